@@ -143,3 +143,26 @@ def from_line_req(ann, line, mode, lineno):
     pieces = line.rstrip("\r\n").split("\t")
     return {"op": "rec.from_line", "scheme": ann, "line": line, "mode": mode, "lineno": lineno,
             "floats": float_table(pieces)}
+
+
+def edit_parsed_lists(ann, rng):
+    """A piece of process history: a line of the layout whose list columns are (mostly) empty is parsed and the caller
+    edits, in place, every list the parsed record hands out (rec[name].value.append(...)).  A record's values belong to
+    that record: nothing parsed, written or read afterwards may notice.  -> undo(), which takes the edits back (so that
+    a broken library cannot spoil the cases that come after)."""
+    from maflib.record import MafRecord
+    from maflib.validation import ValidationStringency as VS
+    sch = impl.scheme_by_annotation(ann)
+    touched = []
+    for prefer in (0.0, 0.0, 0.3):
+        rec = MafRecord.from_line("\t".join(valid_fields(ann, rng, prefer_nonnull=prefer)), scheme=sch, validation_stringency=VS.Silent)
+        for c in rec.values():
+            if c is not None and isinstance(c.value, list):
+                c.value.append("flagged")
+                touched.append(c)
+
+    def undo():
+        for c in touched:
+            if isinstance(c.value, list) and "flagged" in c.value:
+                c.value.remove("flagged")
+    return undo
